@@ -7,6 +7,7 @@ import OpcuaModel.Model.Json
 import OpcuaModel.Model.Write
 import OpcuaModel.Model.Validate
 import OpcuaModel.Model.Enum
+import OpcuaModel.Model.Meta
 /-! Line-protocol driver: one JSON object per input line → one JSON object per output line.
     It only *evaluates* the model's definitions; it contains no logic of its own beyond decoding. -/
 open Lean Opcua Opcua.IO
@@ -518,6 +519,24 @@ def opEnumTransform (j : Json) : Except String Json := do
   | .ok out => return Json.mkObj [("values", Json.arr (out.map fun n =>
       Json.arr #[Json.num (JsonNumber.fromNat n.id), match n.value with | none => Json.null | some v => valToJson v]).toArray)]
 
+/-! ### metadata ops (C18) -/
+def fileDocOf (j : Json) : Except String FileDoc := do
+  return ⟨← getStr j "name", ← getBool j "has_ns_uris", ← docOf (← j.getObjVal? "doc")⟩
+
+def nsDataToJson : Except PyErr NsData → Json
+  | .ok d => Json.mkObj [("name", Json.str (ofStr d.name)), ("included", Json.arr (d.included.map fun u => Json.str (ofStr u)).toArray)]
+  | .error e => errJson e
+
+def opMetaNsData (j : Json) : Except String Json := do
+  let f ← fileDocOf (← j.getObjVal? "file")
+  return Json.mkObj [("xml", nsDataToJson (nsDataXml f)), ("json", nsDataToJson (nsDataJson f)),
+    ("namespaces", Json.arr ((xmlNamespaces f).map fun u => Json.str (ofStr u)).toArray)]
+
+def opMetaFilter (j : Json) : Except String Json := do
+  let files ← (← getArr j "files").toList.mapM fileDocOf
+  let nss := (← getArr j "namespaces").toList.map optStrOf
+  return Json.mkObj [("kept", Json.arr ((excludeFiles files nss).map fun f => Json.str (ofStr f.name)).toArray)]
+
 def dispatch (j : Json) : Except String Json := do
   let op ← (← j.getObjVal? "op").getStr?
   match op with
@@ -545,6 +564,8 @@ def dispatch (j : Json) : Except String Json := do
   | "browse.lookup" => opLookup j
   | "values.validate" => opValidateValues j
   | "enum.transform" => opEnumTransform j
+  | "meta.nsdata" => opMetaNsData j
+  | "meta.filter" => opMetaFilter j
   | "ping" => return Json.mkObj [("pong", Json.bool true)]
   | _ => throw s!"unknown op {op}"
 
